@@ -18,7 +18,7 @@ EXPLANATION = (
     'new SETUP; (d) a store that replaces the stream table is dominated, with no suspension point in between, by '
     'failing every entry of the table being replaced, so no request registered since the last close sequence is '
     'orphaned. Not decided: that requests issued afterwards are served (liveness).')
-EXPLANATION_ADDED = ('(e) reconnect() sets the event the listener waits on; each iteration waits first, skips while a connect is in progress, otherwise marks, clears, closes, connects, and the mark is taken back on every exit of the connect attempt; (f) the transport taken from the provider resolves the transport future and is connected, the closing flag is cleared before the tasks start. Every exit of the old receiver - cancellation by the reconnect included - reaches the close sequence that fails what was pending (shared C11.a).')
+EXPLANATION_ADDED = ('(e) reconnect() sets the event the listener waits on; each iteration waits first, skips while a connect is in progress, otherwise marks, clears, closes, connects, and the mark is taken back on every exit of the connect attempt; (f) the transport taken from the provider resolves the transport future and is connected, the closing flag is cleared before the tasks start. Every exit of the old receiver - cancellation by the reconnect included - reaches the close sequence that fails what was pending (shared C11.a). (g) _stop_tasks, which is re-entered by the reconnect listener while the old receiver is still in it, clears each task attribute only after the task read from that attribute has been cancelled and awaited.')
 EXPLANATION = EXPLANATION.replace(' Not decided', ' ' + EXPLANATION_ADDED + ' Not decided', 1) \
     if ' Not decided' in EXPLANATION else EXPLANATION + ' ' + EXPLANATION_ADDED
 ASSUMPTIONS = COMMON_ASSUMPTIONS
@@ -415,6 +415,44 @@ def rule_f(ctx):
             why or 'self._is_closing = False precedes _start_tasks() on all %d paths' % n)
 
 
+def rule_g(ctx):
+    """_stop_tasks is re-entered: the old receiver runs it from its own close sequence while the reconnect listener
+    runs it through close(reconnect=True).  The listener must find the old tasks still in their attributes so that it
+    waits for them before it connects again - the attribute is cleared only after its task has been cancelled *and
+    awaited*.  Cleared first, the listener connects while the old receiver is still closing, and the tail of the old
+    close sequence then cancels the keepalive task of the new connection."""
+    rep = ctx.report
+    slots = ctx.slots
+    f = slots.RSocketBase.lookup('_stop_tasks')
+    if f is None:
+        raise AnalysisError('C17.g: RSocketBase._stop_tasks vanished')
+    ps = [p for p in ctx.paths(f, slots.RSocketClient, inline_depth=0) if p.outcome == 'return']
+    ok, detail = bool(ps), ''
+    attrs = set()
+    for p in ps:
+        waited = set()
+        for e in p.events:
+            if e.kind == 'call' and e.data.get('awaited') and 'cancel' in str(e.data.get('name')):
+                for a in e.data.get('args', []):
+                    t = strip_epoch(a.term)
+                    if t[0] == 'attr' and t[1] == ('self',):
+                        waited.add(t[2])
+                        attrs.add(t[2])
+            if e.kind == 'store' and e.data['target'][0] == 'attr' and 'task' in e.data['target'][2] and \
+                    strip_epoch(e.data['value'].term) == ('const', None):
+                a = e.data['target'][2]
+                attrs.add(a)
+                if a not in waited:
+                    ok, detail = False, ('self.%s is cleared (line %s) before its task has been cancelled and awaited: '
+                                         'a re-entrant _stop_tasks - the reconnect listener - no longer waits for it' % (
+                                             a, e.line))
+    if len(attrs) < 2:
+        raise AnalysisError('C17.g: _stop_tasks handles %d task attributes' % len(attrs))
+    rep.add('C17.g', 'RSocketBase._stop_tasks / a task attribute is cleared only after its task was awaited', f, ok,
+            detail or 'each of %s is passed to the awaited cancellation from its attribute, then set to None' %
+            ', '.join(sorted(attrs)))
+
+
 def rule_plumbing(ctx):
     """Reconnect closes the old connection: tasks stopped, old transport closed; hooks of the sender run per connection."""
     from . import plumbing
@@ -432,4 +470,4 @@ def rule_plumbing(ctx):
     c15c(ctx)
 
 
-RULES = [('C17.a', rule_a), ('C17.b', rule_b), ('C17.c', rule_c), ('C17.d', rule_d), ('C17.e', rule_e), ('C17.f', rule_f), ('C17.b+C11.a+C11.g', rule_plumbing)]
+RULES = [('C17.a', rule_a), ('C17.b', rule_b), ('C17.c', rule_c), ('C17.d', rule_d), ('C17.e', rule_e), ('C17.f', rule_f), ('C17.b+C11.a+C11.g', rule_plumbing), ('C17.g', rule_g)]
